@@ -42,6 +42,27 @@ func init() {
 
 // ------------------------------------------------------------------ C05
 
+// valuesOnPaths: the values v can have when control arrived through the given set of blocks: phis are resolved to
+// the operands whose predecessor block is in the set (the start block counts only through its k-th edge); other values are returned as is.
+func valuesOnPaths(v ssa.Value, blocks map[*ssa.BasicBlock]bool, start *ssa.BasicBlock, k int, seen map[ssa.Value]bool) []ssa.Value {
+	if seen[v] {
+		return nil
+	}
+	seen[v] = true
+	phi, ok := v.(*ssa.Phi)
+	if !ok || !blocks[phi.Block()] {
+		return []ssa.Value{v}
+	}
+	var out []ssa.Value
+	for i, e := range phi.Edges {
+		p := phi.Block().Preds[i]
+		if (blocks[p] && p != start) || (p == start && k < len(start.Succs) && start.Succs[k] == phi.Block() && start.Succs[1-k] != phi.Block()) {
+			out = append(out, valuesOnPaths(e, blocks, start, k, seen)...)
+		}
+	}
+	return out
+}
+
 func rC05Matcher(w *World, r *Report) {
 	ru := r.Rule("R05.1", "matcher: the exact lookup entry ∈ table, returning the singleton {entry}, dominates the prefix scan; the scan appends a declared key only under strings.HasPrefix(key, entry) and ranges over the node parameter's ChildOptions", 3)
 	fn := w.Fn(nMatcher)
@@ -85,11 +106,25 @@ func rC05Matcher(w *World, r *Report) {
 	ig := buildIG(fn)
 	seen := ig.reachFrom(ig.edgeStart(exactIf.Block(), 0), nil)
 	good, n := true, 0
+	reachedBlocks := map[*ssa.BasicBlock]bool{}
+	for i, s := range seen {
+		if s {
+			reachedBlocks[ig.instrs[i].Block()] = true
+		}
+	}
 	for i, s := range seen {
 		if ret, ok := ig.instrs[i].(*ssa.Return); ok && s {
 			n++
-			els, sp, ok := elementsOf(ret.Results[0], map[ssa.Value]bool{})
-			if !ok || len(sp) > 0 || len(els) != 1 || els[0] != ssa.Value(entry) {
+			// the value returned on these paths: a phi at a join (single exit) contributes only the operands that
+			// arrive from blocks on the exact-match paths
+			vals := valuesOnPaths(ret.Results[0], reachedBlocks, exactIf.Block(), 0, map[ssa.Value]bool{})
+			for _, v := range vals {
+				els, sp, ok := elementsOf(v, map[ssa.Value]bool{})
+				if !ok || len(sp) > 0 || len(els) != 1 || els[0] != ssa.Value(entry) {
+					good = false
+				}
+			}
+			if len(vals) == 0 {
 				good = false
 			}
 		}
@@ -134,9 +169,12 @@ func rC05Matcher(w *World, r *Report) {
 	if scans == 0 {
 		ru.Bad("scan", w.Pos(fn.Pos()), "no prefix scan over the option table")
 	}
-	// appends under HasPrefix(key, entry)
+	// appends under HasPrefix(key, entry) - the appends of the scan (those after the failed exact lookup)
 	apps := 0
 	for _, b := range fn.Blocks {
+		if !edgeDominates(exactIf.Block(), 1, b) {
+			continue
+		}
 		for _, in := range b.Instrs {
 			c, ok := in.(*ssa.Call)
 			if !ok || calleeName(c) != "builtin:append" || len(c.Call.Args) != 2 {
@@ -1009,23 +1047,24 @@ func rC06Readers(w *World, r *Report) {
 			if !ok {
 				return
 			}
-			v := ret.Results[0]
-			if mi, ok := v.(*ssa.MakeInterface); ok {
-				v = mi.X
-			}
-			var rec ssa.Value
-			if t.field != "" {
-				if b, ok := loadOfFieldNamed(v, t.field); ok {
-					rec = b
+			for _, v := range phiLeaves(ret.Results[0], map[ssa.Value]bool{}) { // single exit: the cases meet in a phi
+				if mi, ok := v.(*ssa.MakeInterface); ok {
+					v = mi.X
 				}
-			} else if c, ok := v.(*ssa.Call); ok && calleeName(c) == "(*option.Option).Value" {
-				rec = c.Call.Args[0]
-			}
-			if rec == nil {
-				return
-			}
-			if isOwnTableLookup(rec, fn.Params[0], nameParam, 0) {
-				good = true
+				var rec ssa.Value
+				if t.field != "" {
+					if b, ok := loadOfFieldNamed(v, t.field); ok {
+						rec = b
+					}
+				} else if c, ok := v.(*ssa.Call); ok && calleeName(c) == "(*option.Option).Value" {
+					rec = c.Call.Args[0]
+				}
+				if rec == nil {
+					continue
+				}
+				if isOwnTableLookup(rec, fn.Params[0], nameParam, 0) {
+					good = true
+				}
 			}
 		})
 		ru.Check(good, "reader/"+t.fn, w.Pos(fn.Pos()), "reads table[name] of the viewed node", t.fn+" does not report the field of the record registered under the given name")
